@@ -83,4 +83,10 @@ X("x_cel_order_irrelevant", "every permutation of the cel chunks of a frame give
   mod="x_render", bound="all permutations of <=4 cels on 40 / 400 seeded stacks")
 X("x_forest_exhaustive", "parent(), is_visible() and frame images follow the nesting levels for EVERY forest of up to 6 (quick) / 8 (thorough) layers and every flag assignment",
   ["layer::Layer::parent", "layer::Layer::is_visible", "file::AsepriteFile::frame_image"], mod="x_render", bound="exhaustive <= 6 / 8 layers")
-PROPS["CX"] = {"level": "exploration", "obligations": ["x_roundtrip_structure", "x_header_extremes", "x_routes", "x_frames_vs_spec", "x_cel_order_irrelevant", "x_forest_exhaustive"]}
+X("x_total_load", "loading returns Ok or Err on every corrupted / truncated / hostile / random input: no panic, abort, stack overflow on a 2 MiB thread, or hang",
+  ["parse::read_aseprite", "every decoder", "ParseInfo::validate"], mod="x_total", label="bounded-exec", timeout=1500,
+  bound="window/double/truncation mutants of 6 (24) generated + corpus files; special hostile models; 500 (4000) random strings")
+X("x_usable_after_load", "whatever loads can be fully used: every accessor, every image, extreme tile lookups, Debug return normally",
+  ["file::*", "cel::*", "tilemap::*", "tileset::*", "layer::Layer::is_visible"], mod="x_total", label="bounded-exec", timeout=1500,
+  bound="same fault family as x_total_load")
+PROPS["CX"] = {"level": "exploration", "obligations": ["x_roundtrip_structure", "x_header_extremes", "x_routes", "x_frames_vs_spec", "x_cel_order_irrelevant", "x_forest_exhaustive", "x_total_load", "x_usable_after_load"]}
